@@ -3,6 +3,7 @@
 package mc
 
 import (
+	"os"
 	"encoding/json"
 	"fmt"
 	"math/big"
@@ -86,7 +87,7 @@ func c05Ops(spec c05PoolSpec) []c05Op {
 	}
 	if spec.Oracle {
 		for i := 0; i < 2; i++ {
-			for _, a := range []string{"1e18", "half_mine", "all_mine"} {
+			for _, a := range []string{"1e18", "half_mine", "all_mine", "largest_accepted"} {
 				ops = append(ops, c05Op{Name: fmt.Sprintf("exit_single(asset%d,%s)", i, a), Kind: "exit_single", Arg: a, Idx: i})
 			}
 		}
@@ -324,6 +325,33 @@ func (r *c05Run) apply(ctx sdk.Context, s *c05State, op c05Op, path []string) {
 		s.onlyAllAsset = false
 	case "exit_all", "exit_single":
 		sh := amt(op.Arg, sdkmath.NewInt(1))
+		if op.Arg == "largest_accepted" {
+			// the LARGEST single-asset exit the pool accepts from an actor holding most of the shares (found
+			// by bisection over dry runs on discarded branches): the exit that comes closest to — or
+			// reaches — the whole reserve of the out asset
+			if !pre.mine.MulRaw(2).GT(pre.shares) {
+				return
+			}
+			try := func(x sdkmath.Int) bool {
+				c, _ := ctx.CacheContext()
+				return r.deliver(c, &ammtypes.MsgExitPool{Sender: r.actor.String(), PoolId: r.poolId, ShareAmountIn: x, MinAmountsOut: sdk.Coins{}, TokenOutDenom: pre.denoms[op.Idx]}) == nil
+			}
+			lo, hi := sdkmath.ZeroInt(), pre.mine
+			if try(hi) {
+				lo = hi
+			} else {
+				for i := 0; i < 120 && hi.Sub(lo).GT(sdkmath.OneInt()); i++ {
+					mid := lo.Add(hi).QuoRaw(2)
+					if try(mid) {
+						lo = mid
+					} else {
+						hi = mid
+					}
+				}
+			}
+			sh = lo
+			r.st.Clauses["largest_accepted_single_exit_searched"]++
+		}
 		if !sh.IsPositive() {
 			return
 		}
@@ -488,6 +516,11 @@ func c05RunUnit(e *c05Env, u c05Unit, deadline time.Time, fixed []string) *KStat
 					r.st.Evaluations++
 					r.apply(c, &s, op, fixed[:d+1])
 					ctx = c
+					if os.Getenv("VERIF_DEBUG_C05") != "" {
+						o := r.observe(c)
+						bal := r.e.w.App.BankKeeper.GetAllBalances(c, r.actor)
+						fmt.Fprintf(os.Stderr, "C05DBG after %s: reserves %v shares %s actor_shares %s actor_wallet %s\n", name, o.res, o.shares, o.mine, bal)
+					}
 				}
 			}
 		}
